@@ -577,3 +577,27 @@ def first_stage_check(repo, run, rule):
         run.violation(rule, tr.where(fi, bad), 'first-stage new-path check', 'the first document is not checked with self.stages[0].ayns._require_all_new([], ...) before folding / returning')
     else:
         run.ok(rule, fi, "self.stages[0].ayns._require_all_new([], ...) on all %d completing paths" % n, 'before the fold and before the single-stage return')
+
+
+def function_node_decisions(repo, run, rule):
+    """FunctionNode.ayns.on_merge_impl: self._replace_self(other) runs only when the newer node has priority (ties included),
+    self._replace_other(other) only when the older one strictly outranks it - for every priority pair consistent with the path"""
+    fi = repo.func('FunctionNode.ayns.on_merge_impl')
+    paths = tr.paths_of(repo, fi, no_inline=set(NI), follow_exceptions=True)
+    n = 0
+    verdicts = set()
+    for p in paths:
+        for e in p.events:
+            if e.kind == 'call' and e.attr in ('_replace_self', '_replace_other') and e.recv is not None and e.recv.text == 'self':
+                n += 1
+                cs = prio_constraints(e.facts)
+                want_newer = e.attr == '_replace_self'
+                okk = bool(cs) and all((not consistent(cs, {'self': a, 'other': b})) or ((P(b) >= P(a)) == want_newer) for a in PRIOS for b in PRIOS)
+                if okk:
+                    verdicts.add(('ok', 'self.%s(other) exactly when the %s node has priority (newer wins ties)' % (e.attr, 'newer' if want_newer else 'older')))
+                else:
+                    verdicts.add(('bad', 'function-node merge must let the newer node win on equal priority: self.%s(other) runs under [%s]' % (e.attr, tr.describe(p, 4))))
+    if n < 2:
+        raise AnalysisError('FunctionNode.on_merge_impl: survivor calls not found (%d)' % n)
+    for v in sorted(verdicts):
+        (run.ok if v[0] == 'ok' else run.violation)(rule, fi, 'FunctionNode merge: survivor', v[1])
